@@ -1597,7 +1597,9 @@ class Sequential(Context):
 
             return obj
 
-        self.visit_objects(visit_objects)
+        # only the objects driven by the process itself, objects driven
+        # by its always expression are assigned outside of the process
+        Context.visit_objects(self, visit_objects)
 
         def visit_statements(stmt):
             if isinstance(stmt, _ResetContext):
